@@ -14,17 +14,18 @@ package main
 import (
 	"bufio"
 	"bytes"
-	"os/exec"
-	"path/filepath"
-	"regexp"
 	"encoding/json"
 	"errors"
 	"fmt"
 	"os"
+	"os/exec"
+	"path/filepath"
+	"regexp"
+	"runtime"
 	"sort"
 	"strings"
-	"runtime"
 	"sync"
+	"syscall"
 
 	"github.com/benhoyt/goawk/interp"
 	"github.com/benhoyt/goawk/parser"
@@ -33,28 +34,28 @@ import (
 )
 
 type c13Op struct {
-	K string `json:"k"`           // p gt app pipe close ff ffa sys gf exit fail | ofs ors rec om (assignments to OFS, ORS, $0, OUTPUTMODE; C = the value)
-	N string `json:"n,omitempty"` // symbolic name
-	C string `json:"c,omitempty"` // bytes written (F == "": the statement is chosen from C and the position, see c13Form)
-	V int    `json:"v,omitempty"` // exit code
-	F string `json:"f,omitempty"` // p gt app pipe: "" | "print" (print A[0], A[1], …; no A: bare print of $0) | "printf" (printf "%s%s…", A…) | "fmt" (printf C: C itself is the format)
+	K string   `json:"k"`           // p gt app pipe close ff ffa sys gf exit fail | ofs ors rec om (assignments to OFS, ORS, $0, OUTPUTMODE; C = the value)
+	N string   `json:"n,omitempty"` // symbolic name
+	C string   `json:"c,omitempty"` // bytes written (F == "": the statement is chosen from C and the position, see c13Form)
+	V int      `json:"v,omitempty"` // exit code
+	F string   `json:"f,omitempty"` // p gt app pipe: "" | "print" (print A[0], A[1], …; no A: bare print of $0) | "printf" (printf "%s%s…", A…) | "fmt" (printf C: C itself is the format)
 	A []string `json:"a,omitempty"`
-	S string `json:"s,omitempty"` // how a FILE name is spelled (see c13Spell): "" canonical absolute path | dot | dslash | updir | rootdot | link | tslash
+	S string   `json:"s,omitempty"` // how a FILE name is spelled (see c13Spell): "" canonical absolute path | dot | dslash | updir | rootdot | link | tslash
 }
 
 type c13Case struct {
-	Out  string  `json:"out"`            // plain | bufio | rec | bytesbuf
-	Fail int     `json:"fail"`           // -1: never; k: the underlying stdout accepts k bytes, then fails
-	NL   string  `json:"nl,omitempty"`   // Config.NewlineOutput: "" (not set = smart) | smart | raw | crlf; binary stream: -N <nl>
-	Ops  []c13Op `json:"ops"`
-	Raw  string  `json:"raw,omitempty"`  // a fixed program instead of Ops (F25 witness; binary stream)
-	Want string  `json:"want,omitempty"` // its expected stdout
-	Prev []c13Prev `json:"prev,omitempty"` // earlier Execute calls of the SAME program on the same Interpreter
-	Init map[string]string `json:"-"`      // the files as they are when the run under test starts (set by c13Run)
-	OM    string `json:"om,omitempty"`    // the output mode the run STARTS in, as an OUTPUTMODE string: "" | csv | tsv | "csv separator=;" …
-	OMVia string `json:"omvia,omitempty"` // how it is set: config (Config.OutputMode / CSVOutput) | vars (Config.Vars OUTPUTMODE; binary: -v) | opt (binary: -o); a BEGIN assignment is the op "om"
-	Bin  string  `json:"bin,omitempty"`  // binary stream: what the goawk PROCESS gets as fd 1: ok | rofile | devfull | closedpipe
-	Exit int     `json:"exit,omitempty"` // binary stream: the status the program asks for
+	Out   string            `json:"out"`          // plain | bufio | rec | bytesbuf
+	Fail  int               `json:"fail"`         // -1: never; k: the underlying stdout accepts k bytes, then fails
+	NL    string            `json:"nl,omitempty"` // Config.NewlineOutput: "" (not set = smart) | smart | raw | crlf; binary stream: -N <nl>
+	Ops   []c13Op           `json:"ops"`
+	Raw   string            `json:"raw,omitempty"`   // a fixed program instead of Ops (F25 witness; binary stream)
+	Want  string            `json:"want,omitempty"`  // its expected stdout
+	Prev  []c13Prev         `json:"prev,omitempty"`  // earlier Execute calls of the SAME program on the same Interpreter
+	Init  map[string]string `json:"-"`               // the files as they are when the run under test starts (set by c13Run)
+	OM    string            `json:"om,omitempty"`    // the output mode the run STARTS in, as an OUTPUTMODE string: "" | csv | tsv | "csv separator=;" …
+	OMVia string            `json:"omvia,omitempty"` // how it is set: config (Config.OutputMode / CSVOutput) | vars (Config.Vars OUTPUTMODE; binary: -v) | opt (binary: -o); a BEGIN assignment is the op "om"
+	Bin   string            `json:"bin,omitempty"`   // binary stream: what the goawk PROCESS gets as fd 1: ok | rofile | devfull | closedpipe
+	Exit  int               `json:"exit,omitempty"`  // binary stream: the status the program asks for
 }
 
 // c13Prev: an earlier run on the same Interpreter: its file names carry the suffix Sfx ("" = the same names as the run under
@@ -249,7 +250,9 @@ func c13Stmts(cs *c13Case) []*c13Stmt {
 	return res
 }
 
-func c13CRLF(nl string) bool { return nl == "crlf" || ((nl == "" || nl == "smart") && runtime.GOOS == "windows") }
+func c13CRLF(nl string) bool {
+	return nl == "crlf" || ((nl == "" || nl == "smart") && runtime.GOOS == "windows")
+}
 
 // c13Xf: what one writeOutput call hands to the writer
 func c13Xf(crlf bool, w string) string {
@@ -294,9 +297,10 @@ func c13Eff(cs *c13Case) []string {
 //
 // The scratch directory is <top>/w (the variable D holds its absolute path); <top>/l is a symbolic link to it (variable L).
 // One file <top>/w/f1 can be named in several ways; the interpreter keys its streams by the name AS WRITTEN, so
-//   * a spelling used consistently behaves exactly like the canonical one (same returns of close / fflush / getline, same
+//   - a spelling used consistently behaves exactly like the canonical one (same returns of close / fflush / getline, same
 //     truncation, same file content), and
-//   * two different spellings of one file are two streams (each opened, truncated, buffered, closed on its own).
+//   - two different spellings of one file are two streams (each opened, truncated, buffered, closed on its own).
+//
 // Relative names are never used (they would touch the working directory). "tslash" (a trailing slash) does not name a
 // regular file at all: opening it for writing is a run-time error ("output redirection error"), close / fflush of it find
 // no stream.
@@ -569,11 +573,17 @@ func c13RunBin(cs *c13Case) (obs c13Obs) {
 	case "devfull":
 		f, err = os.OpenFile("/dev/full", os.O_WRONLY, 0)
 	case "closedpipe":
+		// The read end must be closed in EVERY process before goawk writes. Cases run concurrently, and a child forked by
+		// another case between Pipe() and Close() keeps a copy of the read end until its exec: goawk's writes (up to the
+		// 64 KiB pipe buffer) then succeed and it exits 0 — a false alarm met once at load 60. No fork can happen while the
+		// fork lock is read-held, so no process ever inherits the read end.
 		var r *os.File
+		syscall.ForkLock.RLock()
 		r, f, err = os.Pipe()
 		if err == nil {
 			r.Close()
 		}
+		syscall.ForkLock.RUnlock()
 	}
 	if err != nil {
 		obs.Panic = "harness: cannot set up stdout target: " + err.Error()
@@ -622,10 +632,10 @@ func c13BinCases() []c13Case {
 		{`BEGIN { print "hello"; exit 0 }`, "hello\n", 0},
 		{`BEGIN { print "hello"; exit 3 }`, "hello\n", 3},
 		{`BEGIN { printf "x" } END { print "y" }`, "xy\n", 0},
-		{loop(1000, ""), lines(1000), 0},            // 11 000 bytes: one buffer-load, the only write is the final flush
-		{loop(5957, "; exit 3"), lines(5957), 3},    // 65 527 bytes: just below the 64 KiB buffer
-		{loop(5958, ""), lines(5958), 0},            // 65 538 bytes: the last 2 bytes are left for the final flush
-		{loop(7000, "; exit 3"), lines(7000), 3},    // > 64 KiB: a print statement itself sees the failure
+		{loop(1000, ""), lines(1000), 0},         // 11 000 bytes: one buffer-load, the only write is the final flush
+		{loop(5957, "; exit 3"), lines(5957), 3}, // 65 527 bytes: just below the 64 KiB buffer
+		{loop(5958, ""), lines(5958), 0},         // 65 538 bytes: the last 2 bytes are left for the final flush
+		{loop(7000, "; exit 3"), lines(7000), 3}, // > 64 KiB: a print statement itself sees the failure
 		{loop(20000, ""), lines(20000), 0},
 	}
 	targets := []string{"ok", "rofile", "closedpipe"}
@@ -831,17 +841,17 @@ type c13SpecStream struct {
 }
 
 type c13Spec struct {
-	Stdout   string
-	Stderr   string            // what the program wrote to /dev/stderr
-	Files    map[string]string
-	CmdOut   map[string]string // sink*.out and snap_*.out contents
-	Rets     []string          // per executed op: "" (not checked) or the canonical return
-	Opens    []string          // the calls of Config.OpenFile the history stands for: T|A|R ":" file — `>` truncates once per open stream
-	Outcome  string
+	Stdout    string
+	Stderr    string // what the program wrote to /dev/stderr
+	Files     map[string]string
+	CmdOut    map[string]string // sink*.out and snap_*.out contents
+	Rets      []string          // per executed op: "" (not checked) or the canonical return
+	Opens     []string          // the calls of Config.OpenFile the history stands for: T|A|R ":" file — `>` truncates once per open stream
+	Outcome   string
 	EarlyExit bool // the history uses a command that stops reading early (oracle only: EPIPE timing is not modelled)
-	F25Risk  bool // a |-command that writes to the shared stdout was alive while the program wrote to stdout
-	EchoLive int  // max number of stdout-writing commands alive at once
-	Executed int
+	F25Risk   bool // a |-command that writes to the shared stdout was alive while the program wrote to stdout
+	EchoLive  int  // max number of stdout-writing commands alive at once
+	Executed  int
 	// Two streams (two spellings) open on ONE file at the same time, one of them writing: what the file holds then depends on
 	// when each stream's buffer is handed to the OS (and, for `>`, on each descriptor's own offset) — the property says
 	// nothing about it. The content of such a file, and what is read from it, is not judged (returns of close / fflush, the
@@ -1394,14 +1404,14 @@ func c13Corpus() []c13Case {
 	W := func(k, n, c string) c13Op { return c13Op{K: k, N: n, C: c} }
 	X := func(k, n string) c13Op { return c13Op{K: k, N: n} }
 	hist := [][]c13Op{
-		h(P("a\n"), W("gt", "f1", "x\n"), W("gt", "f1", "y\n"), W("app", "f1", "z\n"), X("close", "f1"), W("app", "f1", "w\n")),    // trunc once, then append
-		h(W("app", "f3", "n\n"), X("close", "f3"), W("gt", "f3", "m\n")),                                                         // >> keeps, > truncates on reopen
-		h(W("gt", "f3", "q")),                                                                                                  // left open: closeAll delivers
-		h(P("1\n"), W("pipe", "echo1", "2\n"), X("close", "echo1"), P("3\n")),                                                    // Appendix C: print 1; print 2 | "cat"
+		h(P("a\n"), W("gt", "f1", "x\n"), W("gt", "f1", "y\n"), W("app", "f1", "z\n"), X("close", "f1"), W("app", "f1", "w\n")), // trunc once, then append
+		h(W("app", "f3", "n\n"), X("close", "f3"), W("gt", "f3", "m\n")),                                                        // >> keeps, > truncates on reopen
+		h(W("gt", "f3", "q")), // left open: closeAll delivers
+		h(P("1\n"), W("pipe", "echo1", "2\n"), X("close", "echo1"), P("3\n")),                                                           // Appendix C: print 1; print 2 | "cat"
 		h(P("1\n"), X("sys", "say_hi"), P("2\n"), W("gt", "f1", "k\n"), X("sys", "snap_f1"), W("gt", "f1", "l\n"), X("sys", "snap_f1")), // flushed before child
-		h(W("pipe", "sink3b", "in\n"), W("pipe", "sink3b", "more\n"), X("close", "sink3b"), X("close", "sink3b"), X("sys", "rc3")),   // close status
-		h(W("gt", "f1", "a\n"), X("gf", "f1")),                                                                                  // read from writer
-		h(X("gf", "f3"), W("gt", "f3", "a\n")),                                                                                  // write to reader
+		h(W("pipe", "sink3b", "in\n"), W("pipe", "sink3b", "more\n"), X("close", "sink3b"), X("close", "sink3b"), X("sys", "rc3")),      // close status
+		h(W("gt", "f1", "a\n"), X("gf", "f1")), // read from writer
+		h(X("gf", "f3"), W("gt", "f3", "a\n")), // write to reader
 		h(W("gt", "f1", "a\nb\n"), X("close", "f1"), X("gf", "f1"), X("gf", "f1"), X("gf", "f1"), X("close", "f1"), X("gf", "f2")),
 		h(P("a\n"), W("gt", "f1", "x\n"), W("pipe", "sink0a", "y\n"), c13Op{K: "exit", V: 3}, P("never\n")),                      // exit delivers
 		h(P("a\n"), W("gt", "f1", "x\n"), W("pipe", "sink0a", "y\n"), W("pipe", "echo1", "e\n"), c13Op{K: "fail"}, P("never\n")), // error delivers
@@ -1437,7 +1447,7 @@ func c13Corpus() []c13Case {
 	// a reused Interpreter: the same program run before on the same Interpreter (same or other file names; stopped early by exit or
 	// by a run-time error, or run to the end); the run under test is judged on its own: `>` truncates at its first open IN THIS RUN
 	reuse := [][]c13Op{
-		h(P("a\n"), W("gt", "f1", "x\n"), W("gt", "f1", "y\n")),                                  // stream left open at the end of every run
+		h(P("a\n"), W("gt", "f1", "x\n"), W("gt", "f1", "y\n")), // stream left open at the end of every run
 		h(W("gt", "f1", "x\n"), X("close", "f1"), W("app", "f1", "y\n"), W("gt", "f2", "z\n")),
 		h(W("app", "f3", "n\n"), W("pipe", "sink0a", "s\n"), P("b\n")),
 		h(W("pipe", "sink3b", "s\n"), X("close", "sink3b"), W("pipe", "sink3b", "t\n")),
